@@ -45,7 +45,7 @@ def build_types(vi):
     return m
 
 
-LINK_SHAPES = ['one_many', 'one_one', 'refl', 'assoc', 'composite', 'subtype', 'two_ids', 'one_phrase', 'null_ids']
+LINK_SHAPES = ['one_many', 'one_one', 'refl', 'assoc', 'composite', 'subtype', 'two_ids', 'one_phrase', 'null_ids', 'combined', 'refl_assoc', 'no_attrs']
 
 
 def link_space(shape):
@@ -70,6 +70,14 @@ def link_space(shape):
     if shape == 'one_phrase':
         return [c for c in itertools.product(range(-1, 3), repeat=3)
                 if len([x for x in c if x >= 0]) == len(set(x for x in c if x >= 0))]
+    if shape == 'combined':
+        return list(itertools.product(range(3), repeat=2))            # each C: unrelated | related across R1 only | across R2 only
+    if shape == 'refl_assoc':
+        opts = [None] + [(a, b) for a in range(2) for b in range(2)]
+        return [c for c in itertools.product(opts, repeat=2)
+                if c[0] is None or c[1] is None or (c[0][0] != c[1][0] and c[0][1] != c[1][1])]
+    if shape == 'no_attrs':
+        return [0, 1, 2]                                              # number of instances of the attribute-less class
 
 
 def build_links(shape, st):
@@ -151,6 +159,34 @@ def build_links(shape, st):
             if a >= 0: xtuml.relate(b, A[0], 1)
         for t_, s_ in zip(T, st[2:]):
             if s_ >= 0: xtuml.relate(t_, S[0], 2)
+    elif shape == 'combined':
+        # ONE attribute formalising TWO associations (combined referential): an instance may be related across either one alone
+        m.define_class('A', [('Id', 'unique_id')]); m.define_class('B', [('Id', 'unique_id')])
+        m.define_class('C', [('Id', 'unique_id'), ('Owner_Id', 'unique_id')])
+        m.define_association(1, 'C', ['Owner_Id'], True, True, '', 'A', ['Id'], False, True, '').formalize()
+        m.define_association(2, 'C', ['Owner_Id'], True, True, '', 'B', ['Id'], False, True, '').formalize()
+        a = m.new('A', Id=101); b = m.new('B', Id=202)
+        for k, how in enumerate(st):
+            c = m.new('C', Id=k + 1)
+            if how == 1: xtuml.relate(c, a, 1)
+            if how == 2: xtuml.relate(c, b, 2)
+    elif shape == 'refl_assoc':
+        # reflexive association class: both halves share number, referring and referred class and differ in their phrases only
+        m.define_class('P', [('Id', 'unique_id')])
+        m.define_class('M', [('Husband_Id', 'unique_id'), ('Wife_Id', 'unique_id'), ('w', 'integer')])
+        m.define_association(4, 'M', ['Husband_Id'], False, True, 'is wife of', 'P', ['Id'], False, False, 'is husband of').formalize()
+        m.define_association(4, 'M', ['Wife_Id'], False, True, 'is husband of', 'P', ['Id'], False, False, 'is wife of').formalize()
+        P = [m.new('P') for _ in range(2)]
+        for n, hw in enumerate(st):
+            l = m.new('M', w=n)
+            if hw is not None:
+                xtuml.relate(l, P[hw[0]], 4, 'is husband of'); xtuml.relate(l, P[hw[1]], 4, 'is wife of')
+    elif shape == 'no_attrs':
+        # a class without attributes (e.g. one whose only attributes are derived) next to an ordinary one
+        m.define_class('E', []); m.define_class('A', [('Id', 'unique_id')])
+        m.new('A')
+        for _ in range(st):
+            m.new('E')
     elif shape == 'subtype':
         m.define_class('P', [('Id', 'unique_id')]); m.define_class('X', [('Id', 'unique_id'), ('v', 'integer')])
         m.define_class('Y', [('Id', 'unique_id')])
